@@ -428,6 +428,7 @@ func C07(c *core.Ctx) {
 		c.Ob("C07-R6", "UNRESOLVED:c14n.encodeString", token.NoPos, false, "function not found")
 	}
 	c07StringsEncoded(c)
+	c07ArrayComplete(c)
 }
 
 // c07StringsEncoded — C07-R8: the raw text of an object key and of a string
@@ -817,4 +818,70 @@ func hexIndex(info *types.Info, e ast.Expr, tag *types.Var, op token.Token, k in
 	}
 	v, _ := constant.Int64Val(tv.Value)
 	return v == k
+}
+
+// c07ArrayComplete — C07-R9: an array keeps every element, nulls included
+// (README: only object members with a null value are dropped; an array's
+// length and positions are data). In (*Array).MarshalJSON the element's own
+// MarshalJSON is called, and its result written, on every iteration of the
+// loop over the values — under no condition on the element.
+func c07ArrayComplete(c *core.Ctx) {
+	p := c.P
+	c.Rule("C07-R9", "an array writes every element, null or not", 1)
+	fd := p.Func("c14n", "Array", "MarshalJSON")
+	if fd == nil {
+		c.Ob("C07-R9", "UNRESOLVED:c14n.Array.MarshalJSON", token.NoPos, false, "method not found")
+		return
+	}
+	info := fd.Pkg.TypesInfo
+	recv := recvVar(fd)
+	// the element type of the receiver's list of values
+	var elemT types.Type
+	if _, st := core.StructOf(recv.Type()); st != nil {
+		for k := 0; k < st.NumFields(); k++ {
+			if sl, ok := st.Field(k).Type().Underlying().(*types.Slice); ok {
+				elemT = sl.Elem()
+			}
+		}
+	}
+	if elemT == nil {
+		c.Ob("C07-R9", fd.Name()+"#loop", fd.Decl.Pos(), false, "UNDECIDED: the array type has no slice member")
+		return
+	}
+	// the call that encodes an element: <value of the element type>.MarshalJSON() inside a loop
+	var enc ast.Node
+	var loop ast.Node
+	var walk func(n ast.Node, in ast.Node)
+	walk = func(n ast.Node, in ast.Node) {
+		ast.Inspect(n, func(m ast.Node) bool {
+			if m == nil || m == n {
+				return true
+			}
+			switch x := m.(type) {
+			case *ast.FuncLit:
+				return false
+			case *ast.RangeStmt:
+				walk(x.Body, x)
+				return false
+			case *ast.ForStmt:
+				walk(x.Body, x)
+				return false
+			case *ast.CallExpr:
+				if se, ok := x.Fun.(*ast.SelectorExpr); ok && se.Sel.Name == "MarshalJSON" && in != nil && enc == nil {
+					if t := info.TypeOf(se.X); t != nil && types.Identical(t, elemT) {
+						enc, loop = x, in
+					}
+				}
+			}
+			return true
+		})
+	}
+	walk(fd.Decl.Body, nil)
+	if enc == nil {
+		c.Ob("C07-R9", fd.Name()+"#loop", fd.Decl.Pos(), false, "NOT FOUND: no loop that calls MarshalJSON of the array's elements")
+		return
+	}
+	_ = loop
+	why := everyIteration(p, info, fd.Decl.Body, enc, func(ast.Expr, bool) bool { return false })
+	c.Ob("C07-R9", fd.Name()+"#every-element", enc.Pos(), why == "", "not every element of an array is written: "+why+" — [x,null] and [x] get the same canonical form, so adding or removing a null entry of an array does not change the digest")
 }
